@@ -614,6 +614,8 @@ def replay(rj):
         if rj["kind"] == "ending":
             o = _ending_case((rj["scenario"], rj["opi"], rj["compound"], ninja, vcmd))
             o.pop("scenario_json", None)
+        elif rj["kind"] == "early-close":
+            o = early_close_case(ninja)
         elif rj["kind"] == "signal-outside-wait":
             o = _signal_outside_wait_case((rj["signal"], ninja, rj.get("variant", 0)))
         elif rj["kind"] == "signal":
@@ -640,16 +642,17 @@ default b
 """
 
 
-# The same with a second command whose pipe is at EOF by the time ninja polls again: ppoll() then reports the descriptor
+# Outside ppoll() for another reason (blocked writing a command's output into a full pipe), with a second command whose
+# pipe is at EOF by the time ninja polls again: ppoll() then reports the descriptor
 # and does not deliver the signal; ninja finds it with sigpending() -- and must not leave it pending (it would be
 # delivered, with the default action, when the signal mask is restored on the way out).
-OUTSIDE_WAIT_MANIFEST_2 = """rule detach
-  command = exec >/dev/null 2>&1; sleep 1.2; touch $out
+OUTSIDE_WAIT_MANIFEST_2 = """rule big
+  command = head -c 300000 /dev/zero | tr '\\0' x; touch $out
 rule slow
-  command = sleep 0.7; touch $out
+  command = sleep 1.2; touch $out
 rule quick
   command = touch $out
-build a: detach
+build a: big
 build c: slow
 build b: quick a c
 default b
@@ -668,6 +671,10 @@ def _signal_outside_wait_case(args):
         p = subprocess.Popen([ninja, "-j2"], cwd=root, stdout=subprocess.PIPE, stderr=subprocess.STDOUT, start_new_session=True)
         time.sleep(0.5)
         os.kill(p.pid, getattr(signal, signame))
+        if manifest is OUTSIDE_WAIT_MANIFEST_2:
+            # ninja is blocked writing a's 300 kB of output into the pipe nobody reads (outside ppoll, signals blocked);
+            # leave it there until c's pipe is at EOF, then start reading
+            time.sleep(1.5)
         try:
             o = p.communicate(timeout=15)[0].decode("latin-1")
         except subprocess.TimeoutExpired:
@@ -728,7 +735,61 @@ def c07_process_level(c):
             "real_signal_samples": r["sample"]}
 
 
+# A tool that closes (or redirects) its output and keeps working -- `tool >log 2>&1` run by a shell that execs it, a tool
+# that detaches its output -- next to ordinary commands: with a free slot the ordinary ones must go on being reaped and
+# started while it runs (the real poll loop and the real waitpid(); engine A's runner does not model a blocking wait).
+EARLY_CLOSE_MANIFEST = """rule quiet
+  command = exec >/dev/null 2>&1; sleep 1.6; date +%s.%N > $out
+rule r
+  command = sleep 0.15; date +%s.%N > $out
+build a: quiet
+build b: r
+build c: r
+build d: r
+build all: phony a b c d
+default all
+"""
+
+
+def early_close_case(ninja):
+    root = tempfile.mkdtemp(prefix="rbec.", dir=rb.SHM)
+    out = {"scenario": "output_closed_early", "problems": [], "facts": {}}
+    try:
+        with open(os.path.join(root, "build.ninja"), "w") as f:
+            f.write(EARLY_CLOSE_MANIFEST)
+        p = subprocess.run([ninja, "-j2"], cwd=root, stdout=subprocess.PIPE, stderr=subprocess.STDOUT, timeout=60)
+        if p.returncode != 0:
+            out["problems"].append("exit %s: %s" % (p.returncode, p.stdout.decode("latin-1")[-300:]))
+            return out
+        t = {n: float(open(os.path.join(root, n)).read()) for n in "abcd"}
+        out["times"] = {n: round(t[n] - min(t.values()), 2) for n in t}
+        late = [n for n in "bcd" if t[n] > t["a"] - 0.5]
+        if late:
+            out["facts"]["commands_waited_for_one_that_had_closed_its_output_early"] = True
+            out["problems"].append("-j2, 'a' (1.6 s, closed its output at once) next to three 0.15 s commands: %s finished only after / "
+                                   "when 'a' ended (%s): ninja sat in a blocking wait for 'a' with a free slot and startable commands"
+                                   % (late, out["times"]))
+    except Exception as e:  # noqa
+        out["problems"].append("exception: %r" % (e,))
+    finally:
+        shutil.rmtree(root, ignore_errors=True)
+    return out
+
+
 def c06_process_level(c):
+    ninja0, _ = rb.build_tools()
+    ec = early_close_case(ninja0)
+    if ec["problems"]:
+        known = None
+        for f in c.findings:
+            if f.get("property") == "C06" and nxcheck.matches({"clause": "process-level-idle-slot", "facts": ec["facts"]}, f):
+                known = f
+        if known and len(ec["problems"]) == 1:
+            c.known(known["id"], "%s [%s] %s" % (known["what"], known["id"], ec.get("times")))
+        else:
+            c.violation("C06/process-level %s: %s" % (ec["scenario"], "; ".join(ec["problems"])),
+                        {"engine": "rb", "kind": "early-close", "clause": "process-level-idle-slot", "facts": ec["facts"],
+                         "problems": ec["problems"]})
     r = jobserver(c.tier)
     seen = set()
     for p in r["problems"]:
